@@ -50,6 +50,7 @@ func (obj *TranslationEstimator) Clone() *TranslationEstimator {
   r := TranslationEstimator{}
   r.ScalarBatchEstimator = obj.ScalarBatchEstimator.CloneScalarBatchEstimator()
   r.c = obj.c
+  r.x = obj.x
   return &r
 }
 
